@@ -92,3 +92,164 @@ def discr_of(prog, adt, variant):
         if v["name"] == variant:
             return v["discr"]
     raise KeyError(variant)
+
+
+# ---------------------------------------------------------------------------------------------
+# path-sensitive exploration with abstract enum values
+
+STD_DISCR = {"None": "0", "Some": "1", "Ok": "0", "Err": "1", "Continue": "0", "Break": "1",
+             "Less": "-1", "Equal": "0", "Greater": "1"}
+STD_ENUMS = ("core::option::Option", "core::result::Result", "core::ops::control_flow::ControlFlow")
+
+
+def std_models(name, argvals):
+    """variant-set transfer functions of a few std combinators; argvals: list of abstract values (frozenset or None)"""
+    a0 = argvals[0] if argvals else None
+    if a0 is None:
+        return None
+    m = None
+    if name == "core::result::Result::ok":
+        m = {"Ok": "Some", "Err": "None"}
+    elif name in ("core::option::Option::ok_or_else", "core::option::Option::ok_or"):
+        m = {"Some": "Ok", "None": "Err"}
+    elif name.endswith("Try>::branch"):
+        m = {"Some": "Continue", "None": "Break", "Ok": "Continue", "Err": "Break"}
+    elif name in ("core::option::Option::map", "core::result::Result::map", "core::result::Result::map_err",
+                  "core::option::Option::as_ref", "core::option::Option::as_mut", "core::result::Result::as_ref",
+                  "core::option::Option::cloned", "core::option::Option::copied"):
+        m = {"Some": "Some", "None": "None", "Ok": "Ok", "Err": "Err"}
+    if m is None:
+        return None
+    return frozenset(m[v] for v in a0 if v in m) or None
+
+
+def explore(prog, fn, assign, classify, models=None, watch=(), max_paths=20000):
+    """Enumerate paths of fn under the abstract assignment.
+    assign: {key: set of discriminant strings}
+    classify(origin, adt) -> key or None        (for `discriminant(place)` of designated inputs)
+    models(call, argvals, argkeys) -> frozenset(variant names) or None     (user callee summaries)
+    watch: callee names whose reachability (with abstract argument values) is recorded.
+    Returns (set of abstract return values, list of (callee, tuple(argvals)) reached)."""
+    calls = {c.bb: c for c in fn.calls()}
+    rets = set()
+    watched = set()
+    seen = set()
+    stack = [(0, ())]
+    npaths = 0
+
+    def aval(env, op):
+        p = op_place(op)
+        if p is None or "p" in p:
+            return None
+        return env.get(p["l"])
+
+    def key_of(op):
+        for o in flow.origins(fn, op, through_calls=lambda k: 0 if k.name.endswith("::clone") or k.name.endswith("::deref") else None):
+            k = classify(o, None)
+            if k is None and o.kind == "arg" and not o.proj:
+                # the whole designated value (not its `.0` field) is passed on
+                k = classify(flow.Origin("arg", arg=o.arg, proj=("0",)), None)
+            if k is not None:
+                return k
+        return None
+
+    while stack:
+        bb, envt = stack.pop()
+        if (bb, envt) in seen:
+            continue
+        seen.add((bb, envt))
+        npaths += 1
+        if npaths > max_paths:
+            rets.add("?budget")
+            break
+        env = dict(envt)
+        for s in fn.stmts(bb):
+            if s["k"] != "assign" or "p" in s["place"]:
+                if s["k"] == "assign" and s["place"]["l"] in env and "p" in s["place"]:
+                    env.pop(s["place"]["l"], None)
+                continue
+            l = s["place"]["l"]
+            rv = s["rv"]
+            val = None
+            if rv["k"] == "agg" and rv.get("agg") == "adt" and (rv.get("adt") in STD_ENUMS or rv.get("adt") == "core::cmp::Ordering"):
+                val = ("V", frozenset([rv["variant"]]))
+            elif rv["k"] == "agg" and rv.get("agg") == "tuple":
+                comps = tuple(aval(env, o) for o in rv["ops"])
+                if any(c is not None for c in comps):
+                    val = ("T", comps)
+            elif rv["k"] == "ref" and rv["place"].get("p", []) in ([], ["*"]) and rv["place"]["l"] in env:
+                val = env[rv["place"]["l"]]
+            elif rv["k"] == "use":
+                p = op_place(rv["op"])
+                if p is not None and "p" not in p and p["l"] in env:
+                    val = env[p["l"]]
+                elif p is not None and p.get("p") == ["*"] and p["l"] in env:
+                    val = env[p["l"]]
+                elif "c" in rv["op"] and "int" in rv["op"]["c"] and rv["op"]["c"].get("ty") == "bool":
+                    val = ("B", frozenset([rv["op"]["c"]["int"]]))
+            elif rv["k"] == "discr":
+                pl = rv["place"]
+                base = env.get(pl["l"])
+                pr = pl.get("p", [])
+                if base is not None and base[0] == "T" and len(pr) == 1 and isinstance(pr[0], dict) and "f" in pr[0] \
+                        and pr[0]["f"] < len(base[1]) and base[1][pr[0]["f"]] is not None and base[1][pr[0]["f"]][0] == "V":
+                    val = ("D", frozenset(STD_DISCR[v] for v in base[1][pr[0]["f"]][1] if v in STD_DISCR))
+                elif "p" not in pl and pl["l"] in env and env[pl["l"]][0] == "V":
+                    val = ("D", frozenset(STD_DISCR[v] for v in env[pl["l"]][1] if v in STD_DISCR))
+                else:
+                    for o in flow.origins(fn, {"cp": pl}):
+                        k = classify(o, rv.get("adt"))
+                        if k is not None and k in assign:
+                            val = ("D", frozenset(assign[k]))
+            if val is not None:
+                env[l] = val
+            else:
+                env.pop(l, None)
+        t = fn.term(bb)
+        k = t["k"]
+        if k == "return":
+            r = env.get(0)
+            rets.add(r[1] if r else None)
+            continue
+        if k == "call":
+            c = calls.get(bb)
+            if c is not None:
+                argvals = []
+                for a in c.args:
+                    v = aval(env, a)
+                    argvals.append(v[1] if v and v[0] in ("V", "K") else None)
+                if c.name in watch:
+                    watched.add((c.name, tuple(argvals)))
+                res = std_models(c.name, argvals)
+                if res is None and models is not None:
+                    res = models(c, argvals, [key_of(a) for a in c.args], assign)
+                if c.dest is not None and "p" not in c.dest:
+                    if res is not None:
+                        tagk = "V"
+                        if isinstance(res, tuple) and res and res[0] in ("K", "B"):
+                            tagk, res = res[0], res[1]
+                        env[c.dest["l"]] = (tagk, frozenset(res))
+                    else:
+                        env.pop(c.dest["l"], None)
+            if "t" in t:
+                stack.append((t["t"], tuple(sorted(env.items()))))
+            continue
+        if k == "switch":
+            p = op_place(t["discr"])
+            v = env.get(p["l"]) if p is not None and "p" not in p else None
+            tg = None
+            if v is not None and v[0] in ("D", "B"):
+                listed = {x: y for x, y in t["arms"]}
+                tg = set()
+                for dv in v[1]:
+                    if dv == "-1" and "-1" not in listed and "255" in listed:
+                        dv = "255"      # i8 discriminant printed unsigned
+                    tg.add(listed.get(dv, t["otherwise"]))
+            if tg is None:
+                tg = set(fn.succ[bb])
+            for x in tg:
+                stack.append((x, tuple(sorted(env.items()))))
+            continue
+        for x in fn.succ[bb]:
+            stack.append((x, tuple(sorted(env.items()))))
+    return rets, watched
